@@ -158,7 +158,7 @@ def case_stream(rng, tier):
     i = 0
     kinds = ["missing", "open_err", "read_err", "isdir", "malformed", "malformed", "dsl", "dsl", "dsl_end", "out_schema", "out_x",
              "stdout_write", "stdout_write", "gz_trunc", "join_left", "first_record_early_exit", "target_open", "target_write",
-             "target_write", "target_close", "split_write", "redirect_write", "pipe_early_exit", "not_fired", "target_schema", "evicted_target_write", "two_missing", "multi_redirect_close", "prepipe_fail", "join_left", "prepipe_fail", "multi_redirect_close", "join_left"]
+             "target_write", "target_close", "split_write", "redirect_write", "pipe_early_exit", "not_fired", "target_schema", "evicted_target_write", "two_missing", "multi_redirect_close", "prepipe_fail", "join_left", "prepipe_fail", "multi_redirect_close", "join_left", "dsl_parse"]
     import os
     if os.environ.get("VERIF_KINDS"):  # debugging aid: restrict the fault kinds
         kinds = [k for k in kinds if k in os.environ["VERIF_KINDS"].split(",")]
@@ -171,7 +171,7 @@ def case_stream(rng, tier):
             yield c
 
 
-NAMED_ONLY = ("multi_redirect_close", "evicted_target_write", "dsl", "dsl_end", "out_schema", "out_x", "join_left", "split_write", "redirect_write", "pipe_early_exit", "target_schema")
+NAMED_ONLY = ("dsl_parse", "multi_redirect_close", "evicted_target_write", "dsl", "dsl_end", "out_schema", "out_x", "join_left", "split_write", "redirect_write", "pipe_early_exit", "target_schema")
 
 
 def build_case(r, kind, tier):
@@ -249,6 +249,14 @@ def build_case(r, kind, tier):
         else:
             prog, verb = r.choice(DSL_FAIL_END)
             verbs.insert(q, [verb, prog])
+        case["fail_pos"] = q
+    elif kind == "dsl_parse":
+        # a program that cannot be parsed or built, at any position in the chain, whatever the verb's flags
+        prog = r.choice(["$y = $x +", "$y = = 1", "syntax error $$$", "if ($a) { $b = 1", "func f( { return 1 }", "$y = nosuchfunction($x)", "$y = strlen($a, $b, $c)",
+                         "end { $x = 1 }", "begin { @a = $b }", "return 1", "func f() { return 1 } func f() { return 2 }", "$y = \"unterminated", "emit @x, \"a\",", "unset 3",
+                         "break", "$y = ${a", "for (k, v in $*) { $[k] = v "])
+        q = r.below(len(verbs) + 1)
+        verbs.insert(q, [r.choice(["put", "put", "filter"])] + r.choice([[], [], ["-q"], ["-X"], ["-v"], ["-v", "-X"], ["-S"], ["-x"] if False else ["-d"], ["-z"]]) + [prog])
         case["fail_pos"] = q
     elif kind == "out_schema":
         oflags = [r.choice(["--ocsv", "--otsv"])]
